@@ -18,7 +18,7 @@ def gen_tree(rng, tree_id, n=None, with_context=False, with_prevent=False):
             f = nodes[c]["fn"]
             r = rng.random()
             if with_context and r < 0.35:
-                ctx = rng.choice([{}, {"tenant": rng.choice([1, 2, "x"])}, {"asof": "2020-01-0%d" % rng.randint(1, 3), "k": [1, 2]}])
+                ctx = rng.choice([{}, {"tenant": rng.choice([1, 2, "x", True, 1.0])}, {"asof": "2020-01-0%d" % rng.randint(1, 3), "k": [1, 2]}])
                 nodes[j]["steps"].append(["ctxcall", f, c, ctx])
             elif with_prevent and r < 0.45:
                 nodes[j]["steps"].append(["prevent", f, c])
